@@ -108,6 +108,8 @@ def cases(tier, seed):
             kk = int(rng.integers(1, 6))
             hi = max(1, n - max(fh) + int(rng.integers(0, 2)))
             cs = [int(x) for x in rng.choice(np.arange(0, hi), size=min(kk, hi), replace=False)]
+            if rng.random() < 0.15:
+                cs.insert(int(rng.integers(0, len(cs) + 1)), cs[int(rng.integers(0, len(cs)))])     # a cutoff listed twice: yielded twice, counted twice
             yield {"kind": "cutoff", "n": n, "cutoffs": cs, "wl": wl, "fh": fh, "cont": cont, "off": off,
                    "ctype": "array" if rng.random() < 0.5 else "index"}
         elif kind == "single":
@@ -288,6 +290,33 @@ def run_case(case, ctx):
         ctx.check("cutoffs", [int(x) for x in np.asarray(cu)] == yielded_cutoffs,
                   "report:cutoffs-differ-from-yielded:" + kind, "get_cutoffs differs from the cutoffs of the yielded splits",
                   reported=np.asarray(cu).tolist()[:12], yielded=yielded_cutoffs[:12])
+    # ---- a splitter is asked more than once: the same splits again, the caller's cutoff array as it was --------------------------------
+    again, err2 = [], None
+    try:
+        again = [(np.asarray(tr).tolist(), np.asarray(te).tolist()) for tr, te in cv.split(y)]
+    except Exception as e:  # noqa
+        err2 = e
+    ctx.check("split.sequence", err2 is None and again == got, "split:second-pass-over-the-same-splitter-differs:" + kind,
+              "splitting the same series a second time with the same splitter object gives other splits", first=[g[0][-1] if g[0] else -1 for g in got][:8],
+              second=[g[0][-1] if g[0] else -1 for g in again][:8], error=repr(err2)[:100] if err2 else None)
+    if kind == "cutoff":
+        ctx.check("split.sequence", [int(v) for v in np.asarray(carg)] == [int(v) for v in case["cutoffs"]], "split:cutoff-array-of-the-caller-changed",
+                  "the cutoffs array handed to the splitter was modified", now=[int(v) for v in np.asarray(carg)], given=case["cutoffs"])
+    # ---- ... also after its step length was changed: the splits are those of the current setting ---------------------------------------
+    if kind in ("sliding", "expanding") and case.get("iw") is None and len(got) >= 2:
+        step2 = case["step"] + 1 + (n + wl) % 2
+        st2, ref2 = _ref_window(kind, n, wl, step2, fh, case["sww"], None)
+        cv.step_length = step2
+        try:
+            got2 = [(np.asarray(tr).tolist(), np.asarray(te).tolist()) for tr, te in cv.split(y)]
+            rep2 = [int(v) for v in np.asarray(cv.get_cutoffs(y))]
+        except Exception as e:  # noqa
+            got2, rep2 = repr(e)[:100], None
+        if st2 in ("ok", "truncated"):
+            ctx.check("split.sequence", got2 == [(r[0], r[1]) for r in ref2], "split:after-changing-step_length-not-the-splits-of-the-new-setting:" + kind,
+                      "after assigning another step_length the splitter does not yield the splits of that setting", new_step=step2,
+                      got=[(g[0][-1] if g[0] else -1) for g in got2][:8] if isinstance(got2, list) else got2, expected=[r[2] for r in ref2][:8])
+            ctx.check("cutoffs", rep2 == [r[2] for r in ref2], "report:after-changing-step_length:cutoffs-differ:" + kind, "get_cutoffs after assigning another step_length", reported=rep2)
     gapped = list(fh) != list(range(fh[0], fh[0] + len(fh))) or fh[0] != 1
     if len(ref) >= 2 and (case.get("step", 1) > 1 or gapped or case.get("iw") is not None
                           or case.get("sww") is False or status == "truncated" or kind == "cutoff"):
